@@ -220,6 +220,71 @@ def _check_lists(cases: list[dict]) -> dict:
 LIST_CASES: list[dict] = []
 
 
+def _py_roles(text: str) -> dict[str, list[str]]:
+	"""name -> roles of its occurrences as bare names, from CPython's ast (Store / parameter / `as` target = bind; Load = ref)"""
+	roles: dict[str, list[str]] = {}
+	for n in ast.walk(ast.parse(text)):
+		if isinstance(n, ast.Name):
+			roles.setdefault(n.id, []).append('bind' if isinstance(n.ctx, ast.Store) else 'ref')
+		elif isinstance(n, ast.arg):
+			roles.setdefault(n.arg, []).append('bind')
+		elif isinstance(n, ast.ExceptHandler) and n.name:
+			roles.setdefault(n.name, []).append('bind')
+	return roles
+
+
+def _check_roles(cases: list[dict]) -> dict:
+	"""PyRoles.tla: the role of every slot - spec = CPython (else machinery) = class family of tranp's node"""
+	import rogw.tranp.syntax.node.definition as defs
+	from harness.tranp_env import Env, enter_scratch
+	from rogw.tranp.syntax.ast.entrypoints import Entrypoints
+	from rogw.tranp.syntax.ast.finder import ASTFinder
+	from rogw.tranp.syntax.ast.parser import SyntaxParser
+	enter_scratch('verif-c02-')
+	failures, machinery = [], []
+	for case in cases:
+		py = _py_roles(case['text'])
+		for slot in case['slots']:
+			if py.get(slot['name']) != [slot['role']]:
+				machinery.append(f'spec and CPython disagree on the role of {slot["name"]} in {case["text"]!r}: spec {slot["role"]}, CPython {py.get(slot["name"])}')
+		if machinery:
+			continue
+		kinds = f'role:{case["construct"]}'
+		try:
+			env = Env(sources={'vm_roles': case['text']})
+			# the node tree alone: no symbol resolution (the names of a construct are deliberately not defined anywhere)
+			entry = env.get(Entrypoints).load('vm_roles')
+			nodes = entry._Node__nodes
+			found: dict[str, set] = {}
+			covered: list[tuple[str, str]] = []  # (path, tokens) of name nodes already counted: entries below them are their spelling
+			for p in ASTFinder().full_pathfy(env.get(SyntaxParser)('vm_roles')):
+				node = nodes.by(p)
+				if isinstance(node, (defs.Declable, defs.Reference)) and not isinstance(node, (defs.Relay, defs.Indexer)):
+					if any(p.startswith(cp + '.') and node.tokens == ct for cp, ct in covered):
+						continue
+					covered.append((p, node.tokens))
+					found.setdefault(node.tokens, set()).add('bind' if isinstance(node, defs.Declable) else 'ref')
+		except Exception as e:
+			failures.append({'clause': 'accepted', 'detail': f'{case["construct"]} in {case["context"]}: {type(e).__name__}: {str(e)[:120]}', 'text': case['text'], 'kinds': kinds})
+			continue
+		for slot in case['slots']:
+			got = sorted(found.get(slot['name'], set()))
+			if got != [slot['role']]:
+				what = {'bind': 'a declaration', 'ref': 'a reference'}
+				failures.append({'clause': 'NameRole', 'detail': f'`{slot["name"]}` in {case["construct"]} ({case["context"]}) is {what[slot["role"]]} for Python; tranp has {" and ".join(what[g] for g in got) or "no name node"} there', 'text': case['text'], 'kinds': kinds})
+	return {'failures': failures, 'machinery': machinery}
+
+
+def load_roles() -> list[dict]:
+	import json
+	from harness import tlc
+	res = tlc.run('PyRoles', 'PyRoles.cfg', workers=1, timeout=600)
+	cases = [json.loads(line) for line in res.lines('ROLE ')]
+	if res.rc != 0 or len(cases) < 150:
+		raise Machinery(f'PyRoles: a model-level fact fails or evaluation error ({len(cases)} cases): {res.out[-600:]}')
+	return cases
+
+
 def load_nests() -> list[dict]:
 	import json
 	from harness import tlc
@@ -244,11 +309,13 @@ def run_statements(ctx: Ctx) -> tuple[list[Violation], dict]:
 	with ProcessPoolExecutor(max_workers=16) as ex:
 		nres = list(ex.map(_check_nests, [nests[i::16] for i in range(16)]))
 		nres += list(ex.map(_check_lists, [LIST_CASES[i::16] for i in range(16)]))
+		roles = load_roles()
+		nres += list(ex.map(_check_roles, [roles[i::16] for i in range(16)]))
 	machinery = [m for r in nres for m in r['machinery']]
 	if machinery:
 		raise Machinery(f'{len(machinery)} definition nestings, e.g. {machinery[0]}')
 	failures = [f for r in results for f in r['failures']] + _check_defs(defcases) + [f for r in nres for f in r['failures']]
-	ctx.log(f'{len(stmts)} statement skeletons + {len(defcases)} definition shapes + {len(nests)} definition nestings + {len(LIST_CASES)} ordered-list cases: tranp differs on {len(failures)}')
+	ctx.log(f'{len(stmts)} statement skeletons + {len(defcases)} definition shapes + {len(nests)} definition nestings + {len(LIST_CASES)} ordered-list cases + {len(roles)} name-role programs: tranp differs on {len(failures)}')
 	groups: dict[str, list] = {}
 	for f in failures:
 		groups.setdefault(f'{f["clause"]}:{f["kinds"]}', []).append(f)
